@@ -35,6 +35,8 @@ def case_strategy(tier):
                 "release_time": draw(st.integers(0, now)) if draw(st.booleans()) else draw(st.sampled_from([0, now, now - 1])),
                 "deadline": now + draw(st.one_of(st.integers(-3, 40), st.sampled_from([10, 10, 20]))),
             })
+            if draw(st.integers(0, 7)) == 0:
+                graphs[-1]["deadline_ms"] = draw(st.integers(1, 3))  # a far deadline written in milliseconds
         k = draw(st.integers(0, 3))
         running = []
         for i in range(k):
@@ -130,6 +132,8 @@ def execute(case):
                     return res
     res.nontrivial = len(placed) + len(unplaced) >= 3 and len(unplaced) >= 1 and len(placed) >= 1
     res.classes = [f"policy={pname}", f"unplaced={min(len(unplaced), 3)}"]
+    if any(g.get("deadline_ms") for g in case["graphs"]):
+        res.classes.append("mixed_time_units")
     if case["policy"].get("preemptive"):
         res.classes.append("preemptive")
         if any(t.state.name == "RUNNING" for t, _p, _s in placed) or any(t.state.name == "RUNNING" for t in unplaced):
